@@ -69,7 +69,7 @@ def run(ctx):
     from lib import binop as B_
     try:
         c11_.no_answer_before_dispatch(ctx, "C13.R6", B_.Copies(core))
-    except Exception as ex_:
+    except CheckerError as ex_:
         ctx.inst("C13.R6", "list-scalar#no-answer-before-dispatch", None, "the operator copies could not be located: %s" % ex_, None)
 
     # ---------------- R7 a callback never runs under a heap guard
